@@ -55,6 +55,9 @@ var registry = map[string]propDef{
 	"C06g": {"other", props.C06geom},
 	"C06m": {"other", props.C06mitccrh},
 	"C06k": {"other", props.C06kdf},
+	"C06p": {"other", props.C06pack},
+	"C06s": {"other", props.C06prg},
+	"C18p": {"other", props.C18pack},
 	"C07":  {"other", props.C07},
 	"C07b": {"other", props.C07bitwise},
 	"C08":  {"other", props.C08},
